@@ -63,7 +63,9 @@ RULE = ("cases = (window 1-8, tries 1-5, timeout 2-6 ticks, sequence mask 0xffff
         "= at least one datagram lost or delayed past a timeout and at least one retransmission happened; distinct = "
         "distinct canonical JSON of the case; plus read/write cases = (SCPConnection.read or write of 0 .. 9 buffers + 1 bytes, "
         "buffer 4-256, window 1-8, tries 1-5, same outcome scripts plus request-executed-reply-lost) against a simulated "
-        "memory, non-trivial = more than one chunk and a loss/delay")
+        "memory, non-trivial = more than one chunk and a loss/delay; plus wrap cases = one transfer of more commands than the "
+        "(shrunk) sequence space, window 2-8, with 1-3 (often neighbouring) commands whose replies arrive late but before "
+        "their timeout, so that several sequence numbers in a row are still in use when the counter comes round")
 
 OK, SUM, BUSY = 0x80, 0x82, 0x8d
 FATAL = [0x81, 0x83, 0x84, 0x85, 0x86, 0x87, 0x88, 0x89, 0x8a, 0x8b, 0x8c, 0x8e, 0x8f, 0x90, 0x00]
@@ -473,6 +475,32 @@ def gen_rw_case(rng):
     return case
 
 
+def gen_rw_wrap_case(rng):
+    """one transfer of MORE commands than the (shrunk) sequence space while a few commands - often neighbours -
+    are still waiting for replies that arrive late but BEFORE their timeout: nothing is retransmitted, so every
+    reply belongs to exactly one command that is still outstanding and the counter must step over ALL the
+    numbers that are still in use when it comes round (no reply can legitimately reach another command)."""
+    mask = rng.choice([7, 15, 15, 31])
+    window = rng.choice([w for w in (2, 3, 4, 8) if w < mask])
+    buf = rng.choice([4, 8, 16, 64])
+    n_cmds = rng.randrange(mask + 2, 4 * (mask + 1) + 2)
+    ln = n_cmds * buf - rng.randrange(buf)
+    timeout = 60
+    script = {str(k): [[0, "ok"]] for k in range(n_cmds)}
+    for _ in range(rng.randrange(1, 4)):
+        k0 = rng.randrange(n_cmds)
+        for k in range(k0, min(n_cmds, k0 + rng.choice([1, 2, 2, 3]))):       # neighbours straggle together
+            if len([v for v in script.values() if v[0][0] > 0]) < window - 1:
+                script[str(k)] = [[rng.randrange(8, 50), "ok"]]
+    op = rng.choice(["read", "write"])
+    case = {"rw": op, "buf": buf, "window": window, "n_tries": rng.choice([1, 2, 3]), "timeout": timeout,
+            "mask": mask, "addr": rng.choice([0x60000000, 0x70000000]) + rng.randrange(64), "len": ln,
+            "mem_seed": rng.randrange(251), "script": script, "jitter": rng.randrange(1 << 30), "wrap_rw": True}
+    if op == "write":
+        case["data"] = [rng.randrange(256) for _ in range(ln)]
+    return case
+
+
 def run_rw_impl(case):
     """the real SCPConnection.read / write against a simulated machine holding memory"""
     import random
@@ -560,6 +588,8 @@ def eval_rw_cases(ctx, cases):
         ctx.traces += 1
         ctx.tag("%s_through_burst_%s" % (case["rw"], (result.get("burst") or ["ok" if "ok" in result else "err"])[0]))
         ctx.tag("rw_through_cases")
+        if case.get("wrap_rw"):
+            ctx.tag("rw_through_wrap_with_stragglers")
         lossy = any(v == [] or any(isinstance(d[0], int) and d[0] >= case["timeout"] for d in v)
                     for v in case["script"].values())
         ctx.case(case, lossy and n_cmds > 1)
@@ -611,6 +641,7 @@ def run(ctx):
     for i in range(0, len(cases), 500):
         eval_cases(ctx, cases[i:i + 500])
     rw = [gen_rw_case(ctx.rng) for _ in range(ctx.scale(300, 6000) * (4 if ctx.extended else 1))]
+    rw += [gen_rw_wrap_case(ctx.rng) for _ in range(ctx.scale(100, 2000) * (4 if ctx.extended else 1))]
     for i in range(0, len(rw), 500):
         eval_rw_cases(ctx, rw[i:i + 500])
 
